@@ -4,8 +4,9 @@ Input engine: document sets whose attribute values come from a tiny pool (so hit
 and misses all occur) are exported without sub-classing; every query over <=2 (quick) / <=3
 (thorough) attribute/value pairs of one kind and the multi-kind queries that relate kinds by direct
 containment are run through FuzzyFinder in match mode (string and dictionary parameters) and in
-fuzzy mode; the textual output is parsed and compared, combination by combination, with a
-reference evaluation on the source documents."""
+fuzzy mode; searches by Property value (a pair ('value', [v1, v2, ...]): one Property must carry every
+vi) are made in match mode on Properties with values of several dtypes; the textual output is parsed
+and compared, combination by combination, with a reference evaluation on the source documents."""
 import datetime as dt
 import itertools
 import re
@@ -386,7 +387,9 @@ def parse_output(text):
     belongs to is read off the query text the finder prints (plain triple patterns, or a variable
     plus a FILTER on its text, or a FILTER on the node IRI for ids; for a 'value' pair the node ?p odml:hasValue points
     to, and for each requested value either a member variable plus a FILTER on its text or a literal member)."""
-    blocks = text.split("SELECT * WHERE {\n")
+    # the head of a printed query is whatever SELECT clause the library writes ('SELECT * WHERE {', 'SELECT DISTINCT ?d ?s
+    # WHERE {'); the lines below it are read without their indentation
+    blocks = re.split(r"SELECT\b[^\n{]*\{[ \t]*\n", text)
     out = []
     rev = {"d": "Doc", "s": "Sec", "p": "Prop"}
     for b in blocks[1:]:
